@@ -53,7 +53,9 @@ fn total(index: u64, sweep: &str, wire: WireReq, cfg: &Cfg, prov: &ProvSpec, st:
     }
     let format_logs = index % 2 == 1;
     env::FORMAT_LOGS.with(|f| f.set(format_logs));
-    let mut provider = prov.to_provider();
+    // a provider that, like many tower services, panics if it is called without having reported readiness,
+    // and that is not ready at once for every third case
+    let mut provider = prov.to_provider().strict().with_delays((index % 3 == 2) as u32, (index % 5 == 4) as u32);
     let r = sut::validate(&wire, cfg, &mut provider);
     st.state(&(sweep, r.label()));
     st.nontrivial(&(sweep, &wire, cfg.fold, cfg.s3));
@@ -589,7 +591,7 @@ pub fn run_child(ctx: &Ctx) -> Report {
     Report {
         stats: st,
         rule: format!(
-            "every case runs under catch_unwind inside a child process (abnormal termination = violation), with overflow checks and debug assertions on, alternately with log formatting on: (a) the C13 defect product on both carriers x {{default,S3,fold}} x 3 requirement sets (incl. non-ASCII and empty names); (b) every printable ASCII byte substituted and inserted at every position of 5 URI templates, every two-character escape %c1c2 over 94^2 in path, query value and query name, 40 special URIs (asterisk-, authority-, absolute-form, truncated escapes, 40-60 kB paths / queries) x 2 carriers x 3 options; (c) every byte HeaderValue admits (tab, 0x20-0x7E, 0x80-0xFF) substituted and inserted at every{} position of Authorization / X-Amz-Date / Date / Content-Type / token values; (d) bodies of {} lengths (around 21845, 32768, 65535, up to 200000) x 8 fills (expanding bytes, pairs, UTF-8, separators, escapes) x 11 content types x fold x carrier; all 256 one-byte and every {}th two-byte body as a UTF-8 form; {} charset labels x all one-byte, every {}th two-byte and 4 special bodies; (e) 9 capacities x secret lengths 0..100 x 4 fills; (f) every C16 timestamp string on both carriers and through the unstable API; (g) every subset of set fields of the three builders; (h) every SignatureError shape x 4 messages through Display/Debug/source/code/status/From<Box>; (i) derivation with empty / non-ASCII / 10 kB scopes and NaiveDate::MIN/MAX/year 0/-1/10000; canonicalisation helpers on degenerate and 1 MiB inputs. Oracle: a value or an error, never a panic, abort, hang or non-SignatureError. states = (sweep, outcome class)",
+            "every case runs under catch_unwind inside a child process (abnormal termination = violation), with overflow checks and debug assertions on, alternately with log formatting on, against a strict key provider (panics when called without readiness; not ready at once / answer pending for a share of the cases): (a) the C13 defect product on both carriers x {{default,S3,fold}} x 3 requirement sets (incl. non-ASCII and empty names); (b) every printable ASCII byte substituted and inserted at every position of 5 URI templates, every two-character escape %c1c2 over 94^2 in path, query value and query name, 40 special URIs (asterisk-, authority-, absolute-form, truncated escapes, 40-60 kB paths / queries) x 2 carriers x 3 options; (c) every byte HeaderValue admits (tab, 0x20-0x7E, 0x80-0xFF) substituted and inserted at every{} position of Authorization / X-Amz-Date / Date / Content-Type / token values; (d) bodies of {} lengths (around 21845, 32768, 65535, up to 200000) x 8 fills (expanding bytes, pairs, UTF-8, separators, escapes) x 11 content types x fold x carrier; all 256 one-byte and every {}th two-byte body as a UTF-8 form; {} charset labels x all one-byte, every {}th two-byte and 4 special bodies; (e) 9 capacities x secret lengths 0..100 x 4 fills; (f) every C16 timestamp string on both carriers and through the unstable API; (g) every subset of set fields of the three builders; (h) every SignatureError shape x 4 messages through Display/Debug/source/code/status/From<Box>; (i) derivation with empty / non-ASCII / 10 kB scopes and NaiveDate::MIN/MAX/year 0/-1/10000; canonicalisation helpers on degenerate and 1 MiB inputs. Oracle: a value or an error, never a panic, abort, hang or non-SignatureError. states = (sweep, outcome class)",
             if thorough { "" } else { " (every 3rd for Authorization)" }, lens.len(), two_stride, LABELS.len(), label_stride
         ),
         bounds: json!({"cases": base}),
